@@ -178,18 +178,25 @@ SOUP = list('aAzZgGuUrRlL019fF_-+.%#@!*/\\"\'(){}[]:;,<>=~|^$&? \t\n\r\f\x00\x0b
     ['/*', '*/', 'url(', '\\\\', '\\41', '\\5c', '@charset ', '<!--', '-->', 'U+', '\r\n', '\\\n']
 
 
-def g_escape(rng, ch):
-    """a CSS spelling of the character ch that unescapes to ch"""
-    r = rng.random()
-    cp = ord(ch)
-    if r < 0.45:
-        digits = '%x' % cp
-        if rng.random() < 0.3:
-            digits = digits.upper()
-        if rng.random() < 0.4:
-            digits = digits.rjust(rng.randint(len(digits), 6), '0')
-        term = rng.choice(['', ' ', '\t', '\n', '\r\n', '\f', '\r']) if len(digits) < 6 or rng.random() < 0.5 else ''
-        return '\\' + digits + term, True
+TERMINATORS = ['', ' ', '\t', '\n', '\r\n', '\f', '\r']
+# characters worth writing as hex escapes inside names: the hex form starts with a decimal digit, a letter digit
+# (A-F: \E9, \ABCD, \FFFD), mixes both, has 1..6 digits
+ESCAPABLE = ['é', 'É', '«', 'µ', 'ö', 'ß', '\xa0', '\ufffd', '\uabcd', '\U0001F600', '\U0010FFFF', '\u03bb', '€', '\x0b']
+
+
+def hex_spelling(rng, cp):
+    """hex digits of cp: letter case chosen per digit, leading zeros up to six digits"""
+    digits = ''.join(c.upper() if rng.random() < 0.5 else c for c in '%x' % cp)
+    if rng.random() < 0.4:
+        digits = digits.rjust(rng.randint(len(digits), 6), '0')
+    return digits
+
+
+def g_escape(rng, ch, always=False):
+    """a CSS spelling of the character ch that unescapes to ch: 1-6 hex digits in any letter case, every
+    terminator (also when it is not needed, e.g. after six digits)"""
+    if always or rng.random() < 0.45:
+        return '\\' + hex_spelling(rng, ord(ch)) + rng.choice(TERMINATORS), True
     return ch, False
 
 
@@ -201,11 +208,11 @@ def g_name_chars(rng, n, start):
         r = rng.random()
         if r < 0.75:
             ch = rng.choice(pool)
-        elif r < 0.85:
+        elif r < 0.82:
             ch = rng.choice(['é', 'Ā', '€', '\U0001F600', '\x80', '\U0010FFFF', '￿'])
         else:
-            ch = rng.choice(pool)
-            sp, esc = g_escape(rng, ch)
+            ch = rng.choice(pool) if r < 0.91 else rng.choice(ESCAPABLE)
+            sp, esc = g_escape(rng, ch, always=ch not in pool)
             if esc:
                 # a hex escape without terminator must not be followed by a hex digit / white space issue:
                 out.append(('E', sp))
@@ -269,10 +276,10 @@ def g_token(rng):
             s = v = 'f'
         return ('FUNCTION', s + '(', v + '(', k)
     if k == 'ATKEYWORD':
-        s, v, _ = g_ident(rng, escapes=False)
+        s, v, _ = g_ident(rng)
         if ('@' + v).lower() in RESERVED or v.lower() == 'charset':
             s = v = 'x'
-        return ('ATKEYWORD', '@' + s, '@' + v, k)
+        return ('ATKEYWORD', '@' + s, '@' + s, k)      # the value of an at-keyword is its text as written
     if k == 'RESERVED':
         w = rng.choice(RESERVED)
         s = '@'
@@ -557,6 +564,7 @@ class C05(Check):
             ctx.notes['helpers_skipped'] = repr(e)
         ctx.phase(self.corr_specs, ctx)
         ctx.phase(self.oracle_classify, ctx)
+        ctx.phase(self.oracle_escape_spellings, ctx)
         ctx.phase(self.oracle_completion, ctx)
         ctx.phase(self.oracle_errors, ctx)
 
@@ -966,6 +974,51 @@ class C05(Check):
                                 'recovered with exactly those token types and values',
                                 {'text': enc(wtext), 'repr': repr(wtext), 'full': full, 'doComments': True},
                                 {'expected': wexp, 'got': wgot}, known=known)
+
+    # -- escape spellings inside names: every name-bearing class x code point x digit spelling x terminator x position
+    def oracle_escape_spellings(self, ctx):
+        cps = [0xE9, 0xC9, 0xAB, 0xB5, 0xF6, 0xDF, 0xA0, 0xFFFD, 0xABCD, 0x1F600, 0x10FFFF, 0x41, 0x6B, 0x3BB, 0x20AC,
+               0xB, 0x7A]
+        classes = {
+            'IDENT': lambda n, v: (n, ('IDENT', v)),
+            'HASH': lambda n, v: ('#' + n, ('HASH', '#' + v)),
+            'DIMENSION': lambda n, v: ('12' + n, ('DIMENSION', '12' + v)),
+            'FUNCTION': lambda n, v: (n + '(', ('FUNCTION', v + '(')),
+            'ATKEYWORD': lambda n, v: ('@' + n, ('ATKEYWORD', '@' + n)),
+        }
+        for cp in cps:
+            ch = chr(cp)
+            h = '%x' % cp
+            spellings = sorted({h, h.upper(), h.capitalize(), h[:-1] + h[-1].upper(), h.rjust(4, '0').upper(),
+                                h.rjust(6, '0'), h.upper().rjust(6, '0')})
+            for digits in spellings:
+                if len(digits) > 6:
+                    continue
+                for term in TERMINATORS:
+                    esc = '\\' + digits + term
+                    for pos in ('start', 'mid', 'end'):
+                        if term == '' and pos == 'end':
+                            continue        # would take the separator as its terminator
+                        pre = '' if pos == 'start' else 'x'
+                        post = '' if pos == 'end' else 'y'
+                        if term == '' and len(digits) == 6:
+                            post = post or ''
+                        name, val = pre + esc + post, pre + ch + post
+                        for cls, mk in classes.items():
+                            lexeme, want = mk(name, val)
+                            text = lexeme + ' z'
+                            expect = [want, ('S', ' '), ('IDENT', 'z')]
+                            try:
+                                got = [(t[0], t[1]) for t in impl_tokens(text, False, True)]
+                            except Exception as e:   # noqa
+                                ctx.violate('tokenising any text terminates', {'text': enc(text), 'repr': repr(text)}, repr(e))
+                                continue
+                            ctx.case(key=('escsp', text), nontrivial=True, kind='escape-spelling:' + cls)
+                            if got != expect:
+                                ctx.violate('a text produced from a known sequence of CSS tokens with unambiguous '
+                                            'separators is recovered with exactly those token types and values',
+                                            {'text': enc(text), 'repr': repr(text), 'full': False, 'doComments': True},
+                                            {'expected': expect, 'got': got})
 
     # -- completion oracle: an unterminated last token of a full sheet = the terminated one --------------------
     def oracle_completion(self, ctx):
